@@ -379,6 +379,6 @@ func init() {
 			"monitor: any panic escaping an entry point; process death (stack exhaustion, fatal error) and stalls seen by the parent; logical cost = heap allocations (runtime.MemStats.Mallocs delta): single input <= 3e6 + 400 (n+10)^3, family growth ratio cost(d+1)/cost(d) < 1.7 for d > 8 (polynomial growth gives <= 1.42, doubling gives 2). distinct = distinct input",
 		Assume: []string{"termination is restated as bounded cost: no wall-clock reading enters a verdict; a stall is confirmed by re-running the case alone", "time and cost of the quadratic lexer are polynomial and therefore allowed"},
 		Builds: []string{"asan"}, SanFrac: 8,
-		MinEvents: 20000, EventKey: "api_calls", Stall: 75 * time.Second,
+		MinEvents: 20000, EventKey: "api_calls", Stall: 150 * time.Second,
 	})
 }
